@@ -284,8 +284,8 @@ class Exec(Engine):
                     else:
                         return None
                 else:
-                    # variable defined on one branch only: keep it only if never read later (drop)
-                    continue
+                    # variable defined on one branch only: keep the paths apart
+                    return None
             if va is vb:
                 out[k] = va
                 continue
@@ -345,7 +345,7 @@ class Exec(Engine):
                 f2 = fr.sub(st=hst, exc=exc)
                 if h.name:
                     hst.env[h.name] = mk_py(exc, meta={"V": z3.Const(fresh_name("exc"), V)})
-                hst.events.append(Event("caught", exc.name, line=h.lineno))
+                hst.events.append(Event("caught", exc.name if definite else names[0], line=h.lineno))
                 res.extend(self.exec_block(h.body, f2))
                 if definite:
                     return res
@@ -497,6 +497,10 @@ class Exec(Engine):
             if nm in st.env:
                 old = st.env[nm]
                 kind = old.k if old.k in ("int", "bool", "real", "str") else "V"
+                if old.k == "obj" and not self._rebound(s.body, nm):
+                    # the name keeps denoting the same object; only its fields may change
+                    self.heap_havoc_obj(st, old)
+                    continue
                 if old.k == "obj":
                     kind = "obj:" + old.meta.get("cls")
                 nv = fresh(kind, nm)
@@ -524,6 +528,14 @@ class Exec(Engine):
                         pass
             if ghost:
                 self.havoc_ghost(st, "*")
+
+    @staticmethod
+    def _rebound(body, name):
+        for s_ in body:
+            for n in ast.walk(s_):
+                if isinstance(n, ast.Name) and n.id == name and isinstance(n.ctx, (ast.Store, ast.Del)):
+                    return True
+        return False
 
     def havoc_target(self, m, fr):
         st = fr.st
@@ -739,7 +751,7 @@ class Exec(Engine):
         return True
 
     def is_impure_property(self, node, fr):
-        return node.attr in self.reg.impure_props
+        return node.attr in self.reg.impure_props and isinstance(node.ctx, ast.Load)
 
     def exec_property(self, node, fr):
         base = self.ev(node.value, fr)
@@ -763,10 +775,23 @@ class Exec(Engine):
         line = node.lineno
         # inert (dropped) calls
         if self.is_inert(node):
-            self.report.dropped.append(f"{fr.fn_key}: line {line}: {d}(...) dropped (inert)")
+            msg = f"{fr.fn_key}: line {line}: {d}(...) dropped (inert)"
+            if msg not in self.report.dropped:
+                self.report.dropped.append(msg)
+            if d in self.reg.identity_calls and node.args:
+                # e.g. progbar(iterable, ...): wrapping is the identity on the iterable
+                return [Outcome("normal", st, val=self.ev(node.args[0], fr))]
             return [Outcome("normal", st, val=mk_py({"inert": d}))]
         if not self.needs_exec_call(node, fr):
             return [Outcome("normal", st, val=self.ev(node, fr))]
+        # any method of an inert object (progress bar) is itself inert
+        if isinstance(f, ast.Attribute) and isinstance(f.value, ast.Name) and f.value.id in st.env:
+            rv = st.env[f.value.id]
+            if rv.k == "py" and isinstance(rv.t, dict) and "inert" in rv.t:
+                msg = f"{fr.fn_key}: line {line}: {d}(...) dropped (method of inert {rv.t['inert']})"
+                if msg not in self.report.dropped:
+                    self.report.dropped.append(msg)
+                return [Outcome("normal", st, val=NONE)]
         # mutating method on a value
         if isinstance(f, ast.Attribute) and f.attr in MUTATORS:
             recv = self.ev(f.value, fr)
@@ -1152,6 +1177,8 @@ class Exec(Engine):
         if fn is None:
             rep.missing = f"function {key} not found in the repository"
             return rep
+        D.IMPURE_PROPS.clear()
+        D.IMPURE_PROPS.update(self.reg.impure_props)
         body, log = desugar_function(fn, tuple(self.reg.spec))
         rep.log.extend(log)
         st = State()
